@@ -185,12 +185,12 @@ Proof. reflexivity. Qed.
 
 (* ---------- one step of any history ---------- *)
 
-Theorem step_refines s o : Inv s ->
+Theorem step_gen_refines f s o : Inv s ->
   (match o with ONth n | ONthBack n => (0 <= n)%Z | _ => True end) ->
-  let '(v, s') := step s o in
-  v = fst (q_step (live s) o) /\ live s' = snd (q_step (live s) o) /\ Inv s'.
+  let '(v, s') := step_gen f s o in
+  v = fst (q_step_gen f (live s) o) /\ live s' = snd (q_step_gen f (live s) o) /\ Inv s'.
 Proof.
-  intros HI Harg. destruct o; cbn [step q_step].
+  intros HI Harg. destruct o; cbn [step_gen q_step_gen].
   - pose proof (next_refines s HI) as H. destruct (next s) as [[r s'] e].
     destruct H as (-> & Hl & HI'). destruct (q_next (live s)); cbn in *. auto.
   - pose proof (next_back_refines s HI) as H. destruct (next_back s) as [[r s'] e].
@@ -207,41 +207,55 @@ Proof.
     destruct H as [H HI']. destruct (i <? length (live s)).
     + destruct H as [-> Hl]. auto.
     + destruct H as [-> ->]. auto.
-  - destruct (clone_live (fun x => x) s HI) as [Hl _]. unfold as_slice. rewrite Hl, map_id_eq. auto.
-  - destruct (clone_live (fun x => x) s HI) as [Hl HI']. rewrite Hl, map_id_eq. auto.
-  - destruct (clone_live (fun x => x) s HI) as [Hl _]. unfold fold_visit. rewrite Hl, map_id_eq. auto.
-  - destruct (clone_live (fun x => x) s HI) as [Hl _]. unfold rfold_visit. rewrite Hl, map_id_eq. auto.
-  - destruct (clone_live (fun x => x) s HI) as [Hl HIc].
+  - destruct (clone_live f s HI) as [Hl _]. unfold as_slice. rewrite Hl. auto.
+  - destruct (clone_live f s HI) as [Hl HI']. rewrite Hl. auto.
+  - destruct (clone_live f s HI) as [Hl _]. unfold fold_visit. rewrite Hl. auto.
+  - destruct (clone_live f s HI) as [Hl _]. unfold rfold_visit. rewrite Hl. auto.
+  - destruct (clone_live f s HI) as [Hl HIc].
     unfold count_, drop_it. rewrite drop_list_None.
-    rewrite <- (live_length _ HIc), Hl, map_id_eq. auto.
-  - destruct (clone_live (fun x => x) s HI) as [Hl HIc].
+    rewrite <- (live_length _ HIc), Hl, map_length. auto.
+  - destruct (clone_live f s HI) as [Hl HIc].
     unfold last_. pose proof (next_back_refines _ HIc) as H.
-    destruct (next_back (clone_it (fun x => x) s)) as [[r s1] e1].
+    destruct (next_back (clone_it f s)) as [[r s1] e1].
     destruct H as (-> & _ & _). unfold drop_it. rewrite drop_list_None.
-    rewrite Hl, map_id_eq. auto.
+    rewrite Hl. auto.
   - auto.
 Qed.
+
+Theorem step_refines s o : Inv s ->
+  (match o with ONth n | ONthBack n => (0 <= n)%Z | _ => True end) ->
+  let '(v, s') := step s o in
+  v = fst (q_step (live s) o) /\ live s' = snd (q_step (live s) o) /\ Inv s'.
+Proof. exact (step_gen_refines (fun x => x) s o). Qed.
 
 Definition args_ok (o : op) : Prop :=
   match o with ONth n | ONthBack n => (0 <= n)%Z | _ => True end.
 
-(* every finite history from every state satisfying the invariant *)
-Theorem run_refines ops : forall s, Inv s -> Forall args_ok ops ->
-  run s ops = q_run (live s) ops.
+(* every finite history from every state satisfying the invariant, for every Clone function *)
+Theorem run_gen_refines f ops : forall s, Inv s -> Forall args_ok ops ->
+  run_gen f s ops = q_run_gen f (live s) ops.
 Proof.
   induction ops as [|o ops IH]; intros s HI Hargs; [reflexivity|].
   inversion Hargs as [|? ? Ho Hrest]; subst.
-  cbn [run q_run]. pose proof (step_refines s o HI Ho) as H.
-  destruct (step s o) as [v s']. destruct (q_step (live s) o) as [v' q'].
+  cbn [run_gen q_run_gen]. pose proof (step_gen_refines f s o HI Ho) as H.
+  destruct (step_gen f s o) as [v s']. destruct (q_step_gen f (live s) o) as [v' q'].
   cbn in H. destruct H as (-> & Hl & HI'). rewrite <- Hl. f_equal. now apply IH.
 Qed.
 
+Theorem run_refines ops : forall s, Inv s -> Forall args_ok ops ->
+  run s ops = q_run (live s) ops.
+Proof. exact (run_gen_refines (fun x => x) ops). Qed.
+
 (* from into_iter: the queue initialised with the array's elements *)
+Theorem history_gen_refines f a ops : Forall args_ok ops ->
+  run_gen f (into_iter a) ops = q_run_gen f a ops.
+Proof.
+  intros H. rewrite run_gen_refines by (auto using Inv_into_iter). now rewrite live_into_iter.
+Qed.
+
 Theorem history_refines a ops : Forall args_ok ops ->
   run (into_iter a) ops = q_run a ops.
-Proof.
-  intros H. rewrite run_refines by (auto using Inv_into_iter). now rewrite live_into_iter.
-Qed.
+Proof. exact (history_gen_refines (fun x => x) a ops). Qed.
 
 (* the invariant and the contiguity of what is left: the remaining elements are
    always a contiguous sub-range of the original slots (never overlap / skip) *)
@@ -289,7 +303,7 @@ Theorem step_no_ub s o : Inv s -> args_ok o -> fst (step s o) <> VUB.
 Proof.
   intros HI Ho. pose proof (step_refines s o HI Ho) as H. destruct (step s o) as [v s'].
   destruct H as (-> & _). cbn [fst].
-  destruct o; cbn [q_step fst]; try discriminate.
+  unfold q_step. destruct o; cbn [q_step_gen fst]; try discriminate.
   - destruct (q_next (live s)); discriminate.
   - destruct (q_next_back (live s)); discriminate.
   - destruct (q_nth (live s) (Z.to_nat n)); discriminate.
